@@ -140,7 +140,8 @@ theorem newDT_fresh : ∀ (dt : DataType) (path : String) (nullable : Bool) (md 
       exact ⟨by simp only [WFB, hd]; exact ⟨VLen_new nullable, by simp, hw⟩, by simp [dec, maskNull_new],
         by simp [takeRest, map_new, ht]⟩
   | .map (.mk _ (.struct (.cons _ (.cons _ (.cons _ _)))) _ _) _, path, nullable, md, b, h => by simp [newDT, fail] at h
-  | .map (.mk ename (.struct (.cons kf (.cons vf .nil))) en emd) sorted, path, nullable, md, b, h => by
+  | .map (.mk _ (.struct (.cons _ (.cons _ .nil))) true _) _, path, nullable, md, b, h => by simp [newDT, ctx_ok, fail] at h
+  | .map (.mk ename (.struct (.cons kf (.cons vf .nil))) false emd) sorted, path, nullable, md, b, h => by
     simp only [newDT] at h
     obtain ⟨kb, h1, h⟩ := (bind_ok _ _ _).1 h
     obtain ⟨vb, h2, h⟩ := (bind_ok _ _ _).1 h
@@ -202,7 +203,8 @@ theorem newDT_fresh : ∀ (dt : DataType) (path : String) (nullable : Bool) (md 
     obtain ⟨hw2, hd2, ht2⟩ := newDT_fresh v _ _ _ vb h2
     exact ⟨by simp only [WFB, hd, hd2]; exact ⟨hw, hw2, List.nodup_nil, rfl, by simp, ⟨fun _ => by simp [hd2], fun _ => rfl⟩⟩, by simp [dec, hd],
       by simp [takeRest, ht, ht2]⟩
-  | .union fs mode, path, nullable, md, b, h => by
+  | .union _ .sparse, path, nullable, md, b, h => by simp [newDT, ctx_ok, fail] at h
+  | .union fs .dense, path, nullable, md, b, h => by
     simp only [newDT] at h
     obtain ⟨bl, h1, h⟩ := (bind_ok _ _ _).1 h
     cases h
